@@ -4,7 +4,7 @@ add("C06", "checks/c06_framing.c", ["default-asan", "default-plain", "dtostre-pl
     "units; empty units; unread parameters), each run on a fresh context and again after a random previous message; the captured bytes "
     "and flush events are compared with a response predicted without the library; distinct_nontrivial = distinct (message text, expected "
     "response) pairs",
-    rule_more="ASCII arrays of 255..600 items; C90 library; every handler forwarding a query to a second context (nested parse); status system enabled (service requests raised in mid-response); line ending LF and as a run-time pointer; decoy context also from inside the write callback",
+    rule_more="ASCII arrays of 255..600 items; C90 library; every handler forwarding a query to a second context (nested parse); status system enabled (service requests raised in mid-response); line ending LF and as a run-time pointer; decoy context also from inside the write callback; table entries without handler; flush-terminated messages also travelling behind an empty line of the same input call",
     technique="reference-model monitor over the captured write()/flush() event stream (byte-exact predicted framing with independent item encoders)",
     level_text="exploration by execution over randomly generated messages (3x10^5 quick / 6x10^6 thorough per flavour); every unit-kind adjacency that the statement distinguishes is counted and required to occur",
     level_note="trusted: the check's own item encoders (integers in four bases, quote doubling, block header, a table of floats with short exact decimal expansions); a unit 'responds' iff its handler completed at least one result item",
